@@ -262,6 +262,52 @@ def _pattern(text: str) -> ast.stmt:
     return _PARSED[text]
 
 
+def _def_statements(fn_node, name: str) -> List[ast.stmt]:
+    out = []
+    for s in own_statements(fn_node):
+        if isinstance(s, (ast.FunctionDef, ast.AsyncFunctionDef, ast.ClassDef)):
+            continue
+        heads = []
+        if isinstance(s, (ast.Assign, ast.AugAssign, ast.AnnAssign, ast.Delete)):
+            heads = [s]
+        elif isinstance(s, (ast.For, ast.AsyncFor)):
+            heads = [s.target]
+        elif isinstance(s, (ast.With, ast.AsyncWith)):
+            heads = [i.optional_vars for i in s.items if i.optional_vars is not None]
+        for h in heads:
+            if any(isinstance(n, ast.Name) and n.id == name and isinstance(n.ctx, (ast.Store, ast.Del)) for n in ast.walk(h)):
+                out.append(s)
+                break
+    return out
+
+
+def _merge_into_canonical(fn_node, text: str, mapping: Dict[str, str], all_canon) -> None:
+    """The role's canonical variable exists already; a second variable filling the same role in another statement
+    (one variable of the pinned code split in two, e.g. bin_file -> ap_bin_file / lf_bin_file) is renamed to the canonical
+    spelling when the two are never live at the same time."""
+    from .normalize import _live_after, vocab
+    pat = _pattern(text)
+    for s in own_statements(fn_node):
+        b = match_stmt(pat, s)
+        if b is None or not all(mv in b for mv in mapping):
+            continue
+        for mv, canon in mapping.items():
+            other = b[mv]
+            if other == canon or other in all_canon:
+                continue
+            params = {a.arg for a in fn_node.args.posonlyargs + fn_node.args.args + fn_node.args.kwonlyargs}
+            if other in params or canon in params:
+                continue
+            try:
+                disjoint = all(not _live_after(fn_node, d, canon) for d in _def_statements(fn_node, other)) and \
+                    all(not _live_after(fn_node, d, other) for d in _def_statements(fn_node, canon))
+            except Exception:
+                disjoint = False
+            if disjoint:
+                rename_in_function(fn_node, {other: canon})
+    _ = vocab
+
+
 def resolve_function(fn_node, roles: List[Tuple[str, Dict[str, str]]]) -> List[str]:
     """Apply the role table of one function.  Returns the canonical names that could not be resolved."""
     unresolved = []
@@ -270,6 +316,7 @@ def resolve_function(fn_node, roles: List[Tuple[str, Dict[str, str]]]) -> List[s
         have = bound_names(fn_node)
         need = [c for c in mapping.values() if c not in have]
         if not need:
+            _merge_into_canonical(fn_node, text, mapping, all_canon)
             continue
         pat = _pattern(text)
         found = None
